@@ -8,6 +8,13 @@
  *   - otherwise atof is not called and the value is -1 for a leading '-', else +1.
  * Thorough tier additionally: all-digit tokens of length MAXLEN-2 .. MAXLEN+1 and 9000 (MAXLEN = SOPLEX_LPF_MAX_LINE_LEN of the
  * tree), each in a child process so that a sanitizer abort is recorded as a failure of that input.
+ * Mode "rat" (argv[3]): the same enumeration drives the RATIONAL twin LPFreadValue(char*&, SPxOut*, int) of spxlpbase_rational.hpp
+ * (property C12: every numeric literal becomes exactly the rational it denotes).  pos must advance exactly past the token and one
+ * optional white-space character; a digit-free mantissa must give +-1; for every WELL-FORMED token (mantissa has a digit, an
+ * exponent marker is followed by at least one digit) the returned Rational is compared EXACTLY with an independent evaluation
+ * sign * mantissa / 10^(fraction digits) * 10^exponent built by integer multiply-add (no string conversion shared with ratFromString).
+ * Tokens with an empty exponent ("5e", "5e+") denote no number; for them only pos and memory safety are checked.
+ * Failure ids: LPFreadValue_rat:<token>.
  * Prints one JSON line. */
 #include <cstdio>
 #include <cstdlib>
@@ -15,6 +22,7 @@
 #include <string>
 #include <vector>
 #include <sstream>
+#include <algorithm>
 #include <iostream>
 #include <sys/wait.h>
 #include <unistd.h>
@@ -117,10 +125,99 @@ static std::string checkOne(const std::string& text)
    return err.str();
 }
 
+/* independent exact value of a well-formed token s[0..T) */
+static bool refRational(const char* s, size_t T, Rational& out)
+{
+   size_t i = 0;
+   bool neg = false, anyDigit = false;
+   Integer mant = 0;
+   long fracDigits = 0, ex = 0;
+
+   if(s[i] == '+' || s[i] == '-') { neg = (s[i] == '-'); i++; }
+
+   while(i < T && isdig(s[i])) { mant = mant * 10 + (s[i] - '0'); anyDigit = true; i++; }
+
+   if(i < T && s[i] == '.')
+   {
+      i++;
+
+      while(i < T && isdig(s[i])) { mant = mant * 10 + (s[i] - '0'); fracDigits++; anyDigit = true; i++; }
+   }
+
+   if(!anyDigit)
+      return false;
+
+   if(i < T && (s[i] == 'e' || s[i] == 'E'))
+   {
+      i++;
+      bool eneg = false;
+
+      if(i < T && (s[i] == '+' || s[i] == '-')) { eneg = (s[i] == '-'); i++; }
+
+      if(i >= T)
+         return false;                   /* empty exponent: not a number */
+
+      while(i < T && isdig(s[i])) { ex = ex * 10 + (s[i] - '0'); i++; }
+
+      if(eneg) ex = -ex;
+   }
+
+   long e10 = ex - fracDigits;
+   Integer p = 1;
+
+   for(long k = 0; k < (e10 < 0 ? -e10 : e10); k++) p *= 10;
+
+   Rational v = (e10 >= 0) ? Rational(Integer(mant * p)) : Rational(mant, p);
+   out = neg ? Rational(-v) : v;
+   return true;
+}
+
+static SPxOut* g_out = nullptr;
+
+/* rational twin on one input; returns "" or a description of the discrepancy */
+static std::string checkOneRat(const std::string& text)
+{
+   char* buf = (char*)std::malloc(text.size() + 1);       /* exactly strlen+1 bytes */
+   std::memcpy(buf, text.c_str(), text.size() + 1);
+   char* pos = buf;
+   Rational v = LPFreadValue(pos, g_out, 1);
+   bool md;
+   size_t T = refToken(text.c_str(), md);
+   char behind = text.c_str()[T];
+   size_t expect = T + ((behind == ' ' || behind == '\t' || behind == '\n' || behind == '\r') ? 1 : 0);
+   std::ostringstream err;
+
+   if(pos < buf || pos > buf + text.size())
+      err << "pos outside the line; ";
+   else if((size_t)(pos - buf) != expect)
+      err << "pos advanced by " << (pos - buf) << ", expected " << expect << "; ";
+
+   Rational want;
+
+   if(!md)
+   {
+      if(v != Rational(text[0] == '-' ? -1 : 1))
+         err << "value " << v << " for a token without mantissa digit; ";
+   }
+   else if(refRational(text.c_str(), T, want))
+   {
+      if(v != want)
+         err << "read as " << v << ", denotes " << want << "; ";
+   }
+
+   std::free(buf);
+   return err.str();
+}
+
 int main(int argc, char** argv)
 {
    int L = argc > 1 ? std::atoi(argv[1]) : 5;
    bool longTokens = argc > 2 && std::atoi(argv[2]) != 0;
+   bool rat = argc > 3 && std::string(argv[3]) == "rat";
+   SPxOut spxout;
+   spxout.setVerbosity(SPxOut::ERROR);
+   g_out = &spxout;
+   std::vector<std::string> seenIds;
    const char alpha[] = "+-.eE059 \tx";
    const int A = (int)(sizeof(alpha) - 1);
    long long cases = 0;
@@ -139,9 +236,20 @@ int main(int argc, char** argv)
          if(LPFisValue(s.c_str()))
          {
             cases++;
-            std::string e = checkOne(s);
+            std::string e = rat ? checkOneRat(s) : checkOne(s);
 
-            if(!e.empty() && failures.size() < 20)
+            if(!e.empty() && rat)
+            {
+               bool md;
+               std::string id = "LPFreadValue_rat:" + show(s.substr(0, refToken(s.c_str(), md)));
+
+               if(std::find(seenIds.begin(), seenIds.end(), id) == seenIds.end() && failures.size() < 40)
+               {
+                  seenIds.push_back(id);
+                  failures.push_back("{\"id\":\"" + id + "\",\"input\":\"" + show(s) + "\",\"what\":\"" + e + "\"}");
+               }
+            }
+            else if(!e.empty() && failures.size() < 20)
                failures.push_back("{\"id\":\"readvalue-contract\",\"input\":\"" + show(s) + "\",\"what\":\"" + e + "\"}");
          }
 
@@ -167,7 +275,7 @@ int main(int argc, char** argv)
          if(pid == 0)
          {
             std::fclose(stderr);
-            std::string e = checkOne(std::string((size_t)n, '7') + " x");
+            std::string e = rat ? checkOneRat(std::string((size_t)n, '7') + " x") : checkOne(std::string((size_t)n, '7') + " x");
             _exit(e.empty() ? 0 : 3);
          }
 
@@ -175,13 +283,13 @@ int main(int argc, char** argv)
          waitpid(pid, &st, 0);
 
          if(!(WIFEXITED(st) && WEXITSTATUS(st) == 0))
-            failures.push_back("{\"id\":\"readvalue-long-token\",\"input\":\"" + std::to_string(n) + " digits\",\"what\":\"" +
+            failures.push_back(std::string("{\"id\":\"") + (rat ? "LPFreadValue_rat:" + std::to_string(n) + "digits" : std::string("readvalue-long-token")) + "\",\"input\":\"" + std::to_string(n) + " digits\",\"what\":\"" +
                                std::string(WIFEXITED(st) && WEXITSTATUS(st) == 3 ? "contract violated" : "sanitizer abort / crash (scratch buffer overflown)") + "\"}");
       }
    }
 
-   std::printf("{\"status\":\"%s\",\"cases\":%lld,\"bound\":\"all strings up to length %d over + - . e E 0 5 9 blank tab x that start a number%s\",\"failures\":[",
-               failures.empty() ? "pass" : "fail", cases, L, longTokens ? "; plus all-digit tokens of MAXLEN-2..MAXLEN+1 and 9000 characters" : "");
+   std::printf("{\"status\":\"%s\",\"cases\":%lld,\"bound\":\"%sall strings up to length %d over + - . e E 0 5 9 blank tab x that start a number%s\",\"failures\":[",
+               failures.empty() ? "pass" : "fail", cases, rat ? "rational LPFreadValue, exact value: " : "", L, longTokens ? "; plus all-digit tokens of MAXLEN-2..MAXLEN+1 and 9000 characters" : "");
 
    for(size_t i = 0; i < failures.size(); i++)
       std::printf("%s%s", i ? "," : "", failures[i].c_str());
